@@ -87,6 +87,12 @@ def oracle(case):
     if op == "|":
         if exact:
             return None if (r[0] == "ok" and (r[1] is v or r[1] == v)) else "a value of an argument's exact class is not returned unchanged: %r -> %r" % (v, r)
+        # an argument "accepts" when it does so under the given options or under one of the stricter option sets the
+        # union tries first (strict, no-loss): with a nested ^ argument stricter options can accept what lenient ones reject
+        if n_ok == 0:
+            for extra in (dict(no_data_loss=True, no_explicit_cast=True), dict(no_data_loss=True)):
+                c2 = dict(case, options=dict(case["options"], **extra))
+                n_ok += sum(1 for a in arg_verdicts(c2) if a[0] == "ok")
         if (r[0] == "ok") != (n_ok > 0):
             return "union %s although %d argument(s) accept" % ("accepts" if r[0] == "ok" else "rejects", n_ok)
         return None
